@@ -274,6 +274,7 @@ type world struct {
 	jobsDigest string
 	chgAt      int
 	detail     map[uuid.UUID]string // last /job/detail JSON per job (for the faithful comparison)
+	preDetail  map[uuid.UUID]string // set by a restart step: the details before the restart (nil otherwise)
 }
 
 // digest of the API-visible part of the vocabulary (to detect silent changes between lines)
